@@ -285,6 +285,17 @@ def gen_content(rng: random.Random, size: int, cls: str) -> bytes:
         while len(out) < size:
             out += rng.choice([b".\r\n", b"..\n", b".\n", b"x\n", b"+INFO: fake\r\n", b"+-1\r\n"])
         return bytes(out[:size])
+    if cls == "magic":
+        # ordinary documents whose first line looks like the signature some handler sniffs for: prose that begins
+        # with "From " (no mbox envelope: no weekday/month/day/time), archive and compression magic, a script line
+        first = rng.choice([b"From the minutes of the general meeting, June 2019\n", b"From here on, everything changed in 1999 again\n",
+                            b"From: someone@example.org 2020\n", b"From me to you 12 2001 +0000\n", b"From  2019\n",
+                            b"PK\x03\x04 is how archives start\n", b"\x1f\x8b\x08 gzip magic in a text\n", b"#!/bin/sh\necho not run\n",
+                            b"<html><title>Not a page</title>\n", b"BZh91AY&SY bzip2 magic\n", b"Name=looks like a link file\nPath=/x\n"])
+        out = bytearray(first)
+        while len(out) < size:
+            out += rng.choice([b"more prose ", b"\n", b"From time to time\n"])
+        return bytes(out[:max(size, 1)])[:size]
     raise ValueError(cls)
 
 
@@ -294,7 +305,7 @@ def _binary(rng: random.Random, size: int) -> bytes:
     return (block * reps)[:size]
 
 
-CONTENT_CLASSES = ["text", "crlf", "binary", "badutf8", "dots"]
+CONTENT_CLASSES = ["text", "crlf", "binary", "badutf8", "dots", "magic"]
 
 
 def html_doc(title: typing.Optional[str], body: str = "<p>body</p>") -> bytes:
